@@ -564,7 +564,7 @@ def run(ctx):
                     name = a_.targets[0].id
                     mutates = any((isinstance(n, ast.Call) and isinstance(n.func, ast.Attribute) and n.func.attr in MUT and isinstance(n.func.value, ast.Name) and n.func.value.id == name)
                                   or (isinstance(n, ast.Subscript) and isinstance(n.ctx, (ast.Store, ast.Del)) and isinstance(n.value, ast.Name) and n.value.id == name)
-                                  for n in walk_no_nested(fn_.node) if getattr(n, "lineno", 0) > a_.lineno)
+                                  for n in walk_no_nested(fn_.node) if getattr(n, "lineno", 0) >= a_.lineno and not any(n is x for x in ast.walk(a_)))
                     if mutates and not _copied(a_.value):
                         okm = False
                 # the live record mutated without a name in between
